@@ -224,3 +224,134 @@ def check(ctx):
 
 def fmt(missing):
     return ", ".join(("" if p else "not ") + t for t, p in missing)
+
+
+# --------------------------------------------------------------------------- usage accounting (added rules)
+import re as _re
+
+USED_MB = "lbry.blob.disk_space_manager.DiskSpaceManager.get_space_used_mb"
+USED_BYTES = "lbry.blob.disk_space_manager.DiskSpaceManager.get_space_used_bytes"
+USAGE_SQL = "lbry.extras.daemon.storage.SQLiteStorage.get_stored_blob_disk_usage"
+CLEAN_ALL = "lbry.blob.disk_space_manager.DiskSpaceManager.clean"
+
+_base_check = check
+
+
+def check(ctx):            # noqa: F811  (extends the rules above)
+    _base_check(ctx)
+    prog = ctx.prog
+    fa = ctx.fa(CLEAN)
+    fi = fa.fi
+
+    # ---- both storage classes are cleaned by a pass
+    ca = ctx.fa(CLEAN_ALL)
+    lits = set()
+    for c in ca.calls(name="_clean"):
+        a = c.args[0] if c.args else kwarg(c, "is_network_blob")
+        if a is None:
+            lits.add(False)
+        elif isinstance(a, ast.Constant):
+            lits.add(a.value)
+    ctx.ob("C19-D1/SPEC", lits == {False, True}, ca.site(), "a cleanup pass cleans the content class and the network class",
+           detail="" if lits == {False, True} else f"_clean is called with {sorted(map(str, lits))}", func=ca.fi.qualname)
+
+    # ---- the limit test uses fresh usage figures: _clean reads usage with the literal cached=False ...
+    used = fa.calls(name="get_space_used_mb")
+    ctx.floor("C19-D1/FRESH", "usage read in _clean", len(used), 1)
+    for c in used:
+        v = kwarg(c, "cached")
+        if v is None and c.args:
+            v = c.args[0]
+        ok = v is not None and is_const(v, False)
+        ctx.ob("C19-D1/FRESH", ok, fa.site(c), "the limit test reads usage with cached=False (fresh figures every pass)",
+               detail="" if ok else f"cached argument is `{unparse(v) if v is not None else '<default True>'}`",
+               func=fi.qualname)
+    # `available` really depends on that read
+    avail = [s for s in fa.stmts(ast.Assign) if any(dotted(t) == "available" for t in s.targets)]
+    for s in avail:
+        src = fa.sources(s.value)
+        ok = any(c.endswith("get_space_used_mb") for c in src["calls"])
+        ctx.ob("C19-D1/FRESH", ok, fa.site(s), "`available` is computed from the get_space_used_mb result", func=fi.qualname)
+    # ... and get_space_used_mb with cached=False takes the database read
+    ua = ctx.fa(USED_MB)
+    rets = ua.stmts(ast.Return)
+    ctx.floor("C19-D1/FRESH", "return of get_space_used_mb", len(rets), 1)
+    for r in rets:
+        ex = ua.expand(r.value)
+        fresh_ok = False
+        for n in ast.walk(ex):
+            if isinstance(n, ast.IfExp):
+                test = n.test
+                first = test.values[0] if isinstance(test, ast.BoolOp) and isinstance(test.op, ast.And) else test
+                fresh = any(isinstance(c, ast.Call) and call_name(c) == "get_space_used_bytes" for c in ast.walk(n.orelse))
+                stale = any(isinstance(c, ast.Call) and call_name(c) == "get_space_used_bytes" for c in ast.walk(n.body))
+                if dotted(first) == "cached" and fresh and not stale:
+                    fresh_ok = True
+        ctx.ob("C19-D1/FRESH", fresh_ok, ua.site(r), "with cached=False the figures come from get_space_used_bytes()",
+               detail="" if fresh_ok else f"return value expands to `{unparse(ex)[:160]}`", func=ua.fi.qualname)
+    ub = ctx.fa(USED_BYTES)
+    for r in ub.stmts(ast.Return):
+        src = ub.sources(r.value)
+        ok = any(c.endswith("get_stored_blob_disk_usage") for c in src["calls"]) or "self._used_space_bytes" in src["chains"]
+        writes = [s for s in ub.stmts(ast.Assign) if any(dotted(t) == "self._used_space_bytes" for t in s.targets)]
+        ok = ok and all(any(isinstance(c, ast.Call) and call_name(c) == "get_stored_blob_disk_usage"
+                            for c in ast.walk(w.value)) for w in writes) and bool(writes)
+        ctx.ob("C19-D1/FRESH", ok, ub.site(r), "get_space_used_bytes queries the database (get_stored_blob_disk_usage)",
+               func=ub.fi.qualname)
+
+    # ---- the per-class accounting query
+    qa = ctx.fa(USAGE_SQL)
+    sqls = [c for c in qa.calls() if c.args and isinstance(c.args[0], ast.Constant) and isinstance(c.args[0].value, str)
+            and "select" in c.args[0].value.lower()]
+    ctx.floor("C19-D1/SQL", "accounting statement in get_stored_blob_disk_usage", len(sqls), 1)
+    for c in sqls:
+        sql = " ".join(c.args[0].value.lower().replace('"', "'").split())
+        cases = _re.findall(r"case when (.*?) then (\w+) else 0 end\s*\)\s*,\s*0\s*\)\s*as (\w+)", sql)
+        table = {alias: ({a.strip().replace(" ", "") if "=" in a else " ".join(a.split()) for a in cond.split(" and ")}, col)
+                 for cond, col, alias in cases}
+        for alias in ("network_storage", "content_storage", "private_storage"):
+            if alias not in table:
+                ctx.ob("C19-D1/SQL", False, qa.site(c), f"accounting query has a `{alias}` class", func=qa.fi.qualname)
+        joined = _re.search(r"from blob left join stream_blob using \(blob_hash\)", sql) is not None
+        ctx.ob("C19-D1/SQL", joined, qa.site(c), "accounting query is `blob left join stream_blob using (blob_hash)`",
+               func=qa.fi.qualname)
+
+        def nulltest(atoms, neg):
+            pat = r"stream_blob\.\w+ is not null" if neg else r"stream_blob\.\w+ is null"
+            return any(_re.fullmatch(pat, a) for a in atoms)
+        if "network_storage" in table:
+            atoms, col = table["network_storage"]
+            ok = len(atoms) == 1 and nulltest(atoms, False) and col == "blob_length"
+            ctx.ob("C19-D1/SQL", ok, qa.site(c), "network class = blobs with no stream_blob row (null test on a stream_blob column)",
+                   detail="" if ok else f"condition atoms {sorted(atoms)}", func=qa.fi.qualname)
+        if "content_storage" in table:
+            atoms, col = table["content_storage"]
+            ok = nulltest(atoms, True) and any(a in ("is_mine=0", "blob.is_mine=0") for a in atoms) and len(atoms) == 2 \
+                and col == "blob_length"
+            ctx.ob("C19-D1/SQL", ok, qa.site(c), "content class = blobs with a stream_blob row (not-null test on a stream_blob "
+                   "column, the outer-joined side) that are not the user's", detail="" if ok else f"condition atoms {sorted(atoms)}",
+                   func=qa.fi.qualname)
+        if "private_storage" in table:
+            atoms, col = table["private_storage"]
+            ok = atoms <= {"is_mine=1", "blob.is_mine=1"} and len(atoms) == 1 and col == "blob_length"
+            ctx.ob("C19-D1/SQL", ok, qa.site(c), "private class = the user's blobs", detail="" if ok else f"atoms {sorted(atoms)}",
+                   func=qa.fi.qualname)
+        fin = "blob.status='finished'" in sql.replace(" ", "") or "status='finished'" in sql.replace(" ", "")
+        ctx.ob("C19-D1/SQL", fin, qa.site(c), "only finished blobs are counted", func=qa.fi.qualname)
+        # alias order == unpack order == dict keys
+        aliases = _re.findall(r"\bas (\w+)", sql)
+        assign = qa.lexically_inside(c, lambda a: isinstance(a, ast.Assign))
+        if assign is not None and isinstance(assign.targets[0], ast.Tuple):
+            names = [dotted(e) for e in assign.targets[0].elts]
+            ret = next((r for r in qa.stmts(ast.Return) if isinstance(r.value, ast.Dict)), None)
+            ok = ret is not None and len(names) == len(aliases)
+            detail = ""
+            if ok:
+                mapping = {const.value: dotted(v) for const, v in zip(ret.value.keys, ret.value.values)
+                           if isinstance(const, ast.Constant)}
+                for alias, nm in zip(aliases, names):
+                    if mapping.get(alias) != nm:
+                        ok = False
+                        detail = f"column `{alias}` is unpacked into `{nm}` but the result maps '{alias}' to `{mapping.get(alias)}`"
+            ctx.ob("C19-D1/TABLE", ok, qa.site(assign), "select aliases, unpacked variables and result keys agree position by position",
+                   detail=detail, func=qa.fi.qualname)
